@@ -251,6 +251,8 @@ def limit_transparency(chk, rng, per_overload, prefix="c08", sweeps=None):
 SOURCES = ["count().to_generator()", "range(40).to_generator()", "[3, 1, 4, 1, 5, 9, 2, 6, 5, 3].to_generator()",
            "successors(0, (x: int)->{x + 2})", "count().to_generator().filter((x: int)->{x % 7 == 3})",
            "range(3, 60, 3).to_generator().map((x: int)->{x - 1})"]
+HEAVY = [".filter((x: int)->{range(x * 30 + 5).to_array().len() >= 0})", ".map((x: int)->{range(x * 30 + 5).to_array().len()})",
+         ".filter((x: int)->{(3 ** (x * 40)) % 7 != 0})", ".take_while((x: int)->{range(x * 25 + 3).to_array().len() < 5000})"]
 ADAPTORS = [".map((x: int)->{x + 1})", ".filter((x: int)->{x % 3 != 0})", ".skip(K)", ".take(KK)", ".take_while((x: int)->{x < 90})",
             ".skip_until((x: int)->{x > K})", ".add([7, 8].to_generator())", ".zip(count().to_generator()).map((t: (int, int))->{t::item0 + t::item1})",
             ".aggregate(0, (a: int, b: int)->{a + b})", ".windows(2).map((w: Sequence<int>)->{w[0] + w[1]})", ".distinct()",
@@ -308,3 +310,50 @@ def pipeline_transparency(chk, rng, n, prefix="c06"):
             passed_at.setdefault((src, lim), v)
     if cases:
         chk.sample({"pipeline": cases[0]})
+    # ---- size limit: predicates / mappers with element-dependent transient allocations; an AllocationLimitReached raised inside
+    #      them must end the run (never "element filtered out"), and a passing run's values do not depend on L
+    big = 10 ** 12
+    scases = []
+    for _ in range(max(6, n // 6)):
+        e = rng.choice(["range(1, 14).to_generator()", "[3, 1, 4, 1, 5, 9, 2, 6, 5, 3].to_generator()", "range(2, 20, 2).to_generator()"])
+        k = rng.choice([1, 2])
+        parts = [rng.choice(HEAVY)] + [rng.choice(ADAPTORS[:6]).replace("KK", "6").replace("K", "1") for _ in range(k - 1)]
+        rng.shuffle(parts)
+        e += "".join(parts) + rng.choice([".to_array()", ".to_array().len()", ".take(9).to_array()"])
+        scases.append(f"let r = {e};\n")
+    lim0 = dict(BASE_LIMITS, size=big)
+    empty = run_harness([{"op": "run", "src": "let r = 0;\n", "get": ["r"], "limits": lim0}])[0]
+    base_sz = empty.get("size1", 0)
+    sb = run_harness([{"op": "run", "src": src, "get": ["r"], "limits": lim0} for src in scases], per_req_timeout=30.0)
+    todo = []
+    for src, b in zip(scases, sb):
+        chk.evaluations += 1
+        if b.get("compile") != "ok" or b.get("inst") != "ok" or "vals" not in b:
+            chk.count(f"{prefix}:pipeline:size-baseline-skipped")
+            continue
+        hi = b.get("size1", base_sz) + 60000
+        step = max(64, (hi - base_sz) // (40 if n < 400 else 160))
+        for L in range(base_sz + 16, hi, step):
+            todo.append((src, L, b["vals"]))
+    reqs = [{"op": "run", "src": src, "get": ["r"], "limits": dict(BASE_LIMITS, size=L)} for (src, L, _) in todo]
+    passed_at = {}
+    for (src, L, bv), r in zip(todo, run_harness(reqs, per_req_timeout=30.0)):
+        chk.evaluations += 1
+        chk.count(f"{prefix}:pipeline:size")
+        if "panic" in r or "abort" in r or "hang" in r or r.get("compile") != "ok":
+            chk.count(f"{prefix}:pipeline:crash-skipped")
+            continue
+        key_ops = ".".join(sorted(set(re.findall(r"\.([a-z_]+)\(", src))))
+        replay = {"src": src, "get": ["r"], "limits": dict(BASE_LIMITS, size=L), "expected": {"either": ["viol AllocationLimitReached", bv]}}
+        if r.get("inst") != "ok":
+            if r["inst"]["viol"] != "AllocationLimitReached":
+                chk.violation(f"{prefix}:pipeline:size:other-violation:{key_ops}", f"pipeline under size={L}: violation {r['inst']['viol']}: {src.strip()}", replay)
+            if src in passed_at and passed_at[src] < L:
+                chk.violation(f"{prefix}:pipeline:size:not-monotone:{key_ops}", f"pipeline passes under size={passed_at[src]} but violates under the larger size={L}: {src.strip()}", replay)
+            continue
+        if r["vals"] != bv:
+            chk.violation(f"{prefix}:pipeline:size:changed-result:{key_ops}",
+                          f"pipeline under size={L} ends neither in AllocationLimitReached nor in the unlimited outcome (an allocation violation raised inside a callback was swallowed): "
+                          f"{src.strip()} gives {json.dumps(r['vals'])[:200]}, unlimited {json.dumps(bv)[:200]}", dict(replay, got=r["vals"]))
+        else:
+            passed_at.setdefault(src, L)
